@@ -20,6 +20,8 @@ import TlxVerif.Proofs.C01InsPos
 import TlxVerif.Proofs.C01StdOrder
 import TlxVerif.Proofs.C01Bulk
 import TlxVerif.Proofs.C01RIter
+import TlxVerif.Proofs.C01Walk
+import TlxVerif.Proofs.C01Full
 namespace TlxVerif.C01
 
 variable {K V : Type}
@@ -186,12 +188,36 @@ theorem iterator_conversion_refines (p : Params K) (pv : p.Valid) (t : Tree K V)
     rderef t.leafChain (toReverse t.leafChain (iterN (itInc t.leafChain) r (0, 0))) = t.toList[r - 1]? :=
   rconv_spec p pv t ht r h1 h2
 
--- OPEN: reverse_to_forward_refines — `iterator(rit)` = `rit.base()` (`toForward`) and `reverse_iterator::operator--`;
---   modelled, compared with the implementation and with std on every run; no theorem.
-def reverse_to_forward_refines_statement (p : Params K) : Prop :=
-  ∀ (t : Tree K V), TreeInv p t → ∀ e, endPos t.leafChain = some e → ∀ r, 1 ≤ r → r ≤ t.toList.length →
-    deref t.leafChain (toForward t.leafChain (iterN (ritInc t.leafChain) r (toReverse t.leafChain e))) =
-      t.toList[t.toList.length - r]?
+/-- **reverse → forward conversion and `reverse_iterator::operator--`** (after the fix of defect B1):
+`iterator(rit)` for the reverse iterator `r ≥ 1` steps behind `rbegin()` refers to the entry of rank
+`size − r` — the entry `rit.base()` refers to in std; and `r + 1` applications of `operator--` to `rend()`
+give a reverse iterator with `*rit` = the entry of rank `r` -/
+theorem reverse_to_forward_refines (p : Params K) (pv : p.Valid) (t : Tree K V) (ht : TreeInv p t) :
+    (∀ e, endPos t.leafChain = some e → ∀ r, 1 ≤ r → r ≤ t.toList.length →
+      deref t.leafChain (toForward t.leafChain (iterN (ritInc t.leafChain) r (toReverse t.leafChain e))) =
+        t.toList[t.toList.length - r]?) ∧
+    (∀ r, r < t.toList.length →
+      rderef t.leafChain (iterN (ritDec t.leafChain) (r + 1) (toReverse t.leafChain (0, 0))) = t.toList[r]?) := by
+  have hne := tree_chain_ne_nil p pv t ht
+  have hcf := tree_chain_flatten t
+  constructor
+  · intro e he r h1 h2
+    have hend := isEnd_of_endPos _ e he
+    rw [toReverse_end _ hne e hend]
+    obtain ⟨m, rfl⟩ : ∃ m, r = m + 1 := ⟨r - 1, by omega⟩
+    rw [← hcf] at h2 ⊢
+    obtain ⟨hv, hrk⟩ := iterate_rev t.leafChain hne e hend (by omega) m (by omega)
+    obtain ⟨i1, _⟩ := ritInc_spec t.leafChain hne _ hv
+    obtain ⟨f1, f2⟩ := toForward_spec t.leafChain hne _ (ritInc_form t.leafChain _ hv) (by omega)
+    simp only [iterN]
+    rw [deref_valid _ _ f1, f2]
+    congr 1; omega
+  · intro r hr
+    have h00 : toReverse t.leafChain (0, 0) = (0, 0) := by simp [toReverse]
+    rw [h00, ← hcf] at *
+    obtain ⟨_, j2, j3⟩ := iterate_rdec t.leafChain hne (by omega) (r + 1) (by omega)
+    rw [rderef_valid _ _ (j3 (by omega)), j2]
+    simp
 
 /-- `bulk_load` of an ordered range (level-by-level construction, `n / (parts − i)` distribution): defined,
 the container holds exactly the range, and the invariant holds -/
@@ -333,6 +359,78 @@ theorem copy_assign_refine (p : Params K) (pv : p.Valid) (t o : Tree K V) (ht : 
   cases hroot : t.root with
   | none => simp [Tree.toList, hroot]
   | some r => simp [Tree.toList]
+
+/-! ## the whole operation language
+
+`Op` (Model/C01Machine.lean) is the type the driver parses every protocol line into (`parseOp` in
+Model/C01Step.lean; the driver's `step` is `parseOp` + `stepOp` + printing), so the function the theorem
+is about is the function compared with the implementation.
+
+Canonicalisation.  The abstract container (`SSt`, `specStep`) is a key-ordered association list per
+register together with the comparator the register currently holds; a new entry is placed at the
+*lower bound* of its key (before the entries with an equivalent key), `erase_one`/`erase(key)` remove
+the first equivalent entry first.  `Rel` relates a model state to an abstract state by *equality* of the
+flattened leaf contents with the list (`toList`, no permutation, no sorting) and by the invariant
+`TreeInv`.  Model answers are compared after `MOut.abs`, which only replaces every iterator
+`(leaf, slot)` by its rank = number of `++` steps from `begin()` (`rankOf`); entries, booleans, counts and
+visited sequences are compared as they are.  The std containers differ from this specification only in
+the relative order of entries with equivalent keys (libstdc++ inserts behind them):
+`insertLB_vs_std` below relates the two. -/
+
+/-- **every history of every operation**: insert (all three forms, answer: inserted flag and position),
+`operator[]`, range insert / range construction, `erase_one`, `erase(key)` (all occurrences, count),
+`erase(iterator)`, `find` / `lower_bound` / `upper_bound` / `equal_range` (ranks), `exists`, `count`, `size` /
+`empty`, iteration in all sixteen modes (four iterator classes × `++` from begin / `--` from end), both
+iterator conversions, `clear`, `bulk_load`, copy construction, assignment, both swaps between the two
+registers and the six comparison operators.  From the empty state with any pair of comparators: the
+model machine never leaves defined behaviour, refuses (`bad-op`) exactly the operations the abstract
+machine refuses, gives exactly the abstract answers, and ends in a state related to the abstract one
+(same flattened contents, invariant) -/
+theorem history_refines_full (c : Cfg) (pv : c.p.Valid) (m0 m1 : Nat) (ops : List Op) :
+    ∃ s' lg, runOps c { m0 := m0, m1 := m1 } ops = some (s', (specRun c { m0 := m0, m1 := m1 } ops).2, lg) ∧
+      Rel c s' (specRun c { m0 := m0, m1 := m1 } ops).1 := by
+  obtain ⟨s', lg, h1, h2, _⟩ := run_refines c pv ops _ _ (rel_init c m0 m1)
+  exact ⟨s', lg, h1, h2⟩
+
+/-- the same from any related pair of states (the induction behind `history_refines_full`) -/
+theorem history_refines_full_from (c : Cfg) (pv : c.p.Valid) (ops : List Op) (s : MSt) (ss : SSt) (h : Rel c s ss) :
+    ∃ s' lg, runOps c s ops = some (s', (specRun c ss ops).2, lg) ∧ Rel c s' (specRun c ss ops).1 := by
+  obtain ⟨s', lg, h1, h2, _⟩ := run_refines c pv ops s ss h
+  exact ⟨s', lg, h1, h2⟩
+
+/-- one step, as used by the history theorem -/
+theorem step_refines_full (c : Cfg) (pv : c.p.Valid) (s : MSt) (ss : SSt) (h : Rel c s ss) (op : Op) :
+    match specStep c ss op with
+    | none => stepOp c s op = .bad
+    | some (ss', o) =>
+      ∃ s' mo lg, stepOp c s op = .ok (s', mo, lg) ∧ mo.abs (s.get op.reg) (s'.get op.reg) = o ∧ Rel c s' ss' := by
+  have := stepOp_refines c pv s ss h op
+  cases hsp : specStep c ss op with
+  | none => rw [hsp] at this; exact this
+  | some res =>
+    obtain ⟨ss1, o⟩ := res
+    rw [hsp] at this
+    obtain ⟨s1, mo, l1, g1, g2, g3, _⟩ := this
+    exact ⟨s1, mo, l1, g1, g2, g3⟩
+
+/-- the abstract lists stay ordered by the comparator their register holds (so ranks are lower/upper
+bounds in the usual sense) -/
+theorem spec_lists_sorted (c : Cfg) (pv : c.p.Valid) (m0 m1 : Nat) (ops : List Op) :
+    SortedE (orderLt (specRun c { m0 := m0, m1 := m1 } ops).1.m0) (specRun c { m0 := m0, m1 := m1 } ops).1.l0 ∧
+    SortedE (orderLt (specRun c { m0 := m0, m1 := m1 } ops).1.m1) (specRun c { m0 := m0, m1 := m1 } ops).1.l1 := by
+  obtain ⟨s', lg, _, h2, _⟩ := run_refines c pv ops _ _ (rel_init c m0 m1)
+  exact ⟨by rw [← h2.m0, ← h2.l0]; exact h2.inv0.2.1, by rw [← h2.m1, ← h2.l1]; exact h2.inv1.2.1⟩
+
+/-- non-vacuity of `history_refines_full`: a multimap history with splits, a swap, erasures and a
+comparison, answered as the abstract machine answers -/
+def sampleCfg : Cfg := { kind := 3, p := { leafMax := 4, innerMax := 4, bin := true, dup := true, lt := orderLt 0 } }
+def sampleHistory : List Op :=
+  (List.range 24).map (fun i => Op.ins .plain 0 ((i * 7) % 11) i) ++
+    [.copy 1 0, .era 0 3, .swap 0 1, .eri 1 2, .lb 0 5, .iter 1 5, .fconv 0 3, .cmp 0 1, .bulk 1 [(1, 1)], .clear 1,
+     .bulk 1 [(1, 1), (1, 2), (4, 0)]]
+
+example : ((runOps sampleCfg {} sampleHistory).map fun r => (r.1.t0.toList.length, r.1.t1.toList.length, r.2.1.length)) =
+    some (24, 3, 35) := by decide +kernel
 
 /-! ## non-vacuity -/
 
